@@ -411,6 +411,11 @@ func (w *world) genRequest(ls *logState) (uint64, []byte, [][]byte, string) {
 		ext := []string{}
 		for i := rng.Intn(3); i > 0; i-- {
 			ext = append(ext, fmt.Sprintf("ext-%d %x", i, rng.Int63()))
+			if rng.Intn(3) == 0 {
+				// bytes that mean something to printf, templates, URLs, shells or JSON when text is mishandled on its way out
+				specials := []string{"93% full", "%s %d %v %!x(MISSING)", "100%", "a%20b%0A", "{{.}} ${HOME} `x`", "\\n \\x00 \"q\"", "<&>", "é→✓ \u2028"}
+				ext = append(ext, specials[rng.Intn(len(specials))])
+			}
 		}
 		text := cpText(l.origin, size, cur.root(size), ext...)
 		signers := []note.Signer{l.key.signer}
